@@ -53,6 +53,10 @@ def one(kind, name, claimed):
                     bad.append("%s exit %d: %s" % (pid, code, " | ".join(l.strip()[:170] for l in lines[:3])))
             return name, not bad, bad
         meta = json.load(open(os.path.join(d, "meta.json")))
+        if meta.get("detected_by", "").startswith("NOT DETECTED"):
+            # recorded miss (reason in meta.json): still run the property's own check, which must not crash
+            code, lines = run_check(meta["property"], sc)
+            return name, code in (0, 1), ["%s exit %d (recorded as not detected)" % (meta["property"], code)] if code == 2 else []
         ids = sorted(set(re.findall(r"\bC\d\d\b", meta.get("detected_by", ""))) & set(claimed)) or [meta["property"]]
         hit, msgs = False, []
         for pid in ids:
